@@ -150,7 +150,7 @@ def show_hist(r):
 # --------------------------------------------------------------------------------------
 SECS = [None, "", "A", "[A]", "B", "[B]", "C c"]
 KEYS = ["x", "y", "z", "k4", "k5", "k6", "k7", "k8", "k9", "k10"]
-VALS = ["v", "Yes Please", "TRUE", "0x10", "1e3", "", "42", "-7", "a b  c", "tRuE", "No", "2.5", "0755", "yes", "nOnE"]
+VALS = ["v", "Yes Please", "TRUE", "0x10", "1e3", "", "42", "-7", "a b  c", "tRuE", "No", "2.5", "0755", "yes", "nOnE", "  \"q r\"", "\"x\"  "]
 BOOLW = ["1", "0", "yes", "YES", "no", "No", "true", "TRUE", "false", "fAlSe"]
 
 
